@@ -647,6 +647,8 @@ def isOptionNamed (p : Node) (name : String) : Bool :=
     | .mk .ident (n :: _) _ => n == name
     | .mk .str (v :: _) _ => v == name
     | .mk .computed _ [.mk .str (v :: _) _] => v == name
+    -- [`name`]: a template literal without substitutions
+    | .mk .computed _ [.mk .tsTplLit _ [.mk .list _ [], .mk .list _ [.mk (.other "TemplateElement") (_ :: cooked :: _) _]]] => cooked == name
     | _ => false
   match p with
   | .mk .ident (n :: _) _ => n == name                       -- shorthand
@@ -655,11 +657,25 @@ def isOptionNamed (p : Node) (name : String) : Bool :=
   | .mk .methodProp _ (k :: _) => keyIs k
   | _ => false
 
+/-- `may_define_any_option`: a spread, or an entry whose key is computed from something other than a literal -/
 def isSpreadProp : Node → Bool
   | .mk .spreadElement _ _ => true
+  | .mk .kv _ (k :: _) => dynKey k
+  | .mk .getterProp _ (k :: _) => dynKey k
+  | .mk .setterProp _ (k :: _) => dynKey k
+  | .mk .methodProp _ (k :: _) => dynKey k
   | _ => false
+where
+  dynKey (k : Node) : Bool :=
+    match k with
+    | .mk .computed _ [e] =>
+      if isLit e then false else
+      match e with
+      | .mk .tsTplLit _ (.mk .list _ exprs :: _) => !exprs.isEmpty
+      | _ => true
+    | _ => false
 
-/-- insert before the first spread, or append when there is none -/
+/-- insert before the first spread (or entry with a key computed at run time), or append when there is none -/
 def insertBeforeFirstSpread (props : List Node) (entry : Node) : List Node :=
   match props with
   | [] => [entry]
